@@ -30,6 +30,8 @@ def requests():
     r = [Request(u, fn=["stir::ProjDataInfo.*::get_bin$", "stir::ProjDataInfo.*::find_bin_given_cartesian_coordinates_of_detection"], files=["/repo/src/buildblock/.*"]) for u in UNITS]
     r.append(Request(B + "ProjDataInfoCylindricalArcCorr.cxx", fn=["stir::ProjDataInfoCylindricalArcCorr::get_s", "stir::ProjDataInfoCylindricalNoArcCorr::get_s", "stir::ProjDataInfoCylindrical::get_(phi|m|tantheta)"], files=["/repo/src/include/stir/ProjDataInfoCylindrical.*\\.inl"]))
     r.append(Request(B + "ProjDataInfoCylindricalNoArcCorr.cxx", fn=["stir::ProjDataInfoCylindricalNoArcCorr::get_s"], files=["/repo/src/include/stir/ProjDataInfoCylindrical.*\\.inl"]))
+    r.append(Request(B + "ProjDataInfoCylindrical.cxx", fn=["stir::ProjDataInfoCylindrical::ProjDataInfoCylindrical"]))
+    r.insert(-1, Request(B + "ProjDataInfoGenericNoArcCorr.cxx", fn=["stir::ProjDataInfoGeneric::get_tantheta", "stir::ProjDataInfoCylindrical::get_tantheta"], files=["/repo/src/include/stir/ProjDataInfo.*\\.inl"]))
     return r
 
 
@@ -297,6 +299,87 @@ def rule_c(ctx, fns):
     return n
 
 
+def rule_e_obliqueness_is_dz_over_chord(ctx, fns):
+    """tan(theta) of a bin is the axial distance of its end points divided by their TRANSAXIAL distance, which for a line at distance s
+    from the axis of a cylinder of radius R is 2*sqrt(R^2 - s^2) = 2 R cos(beta), s = R sin(beta).  Both families of geometries
+    (cylindrical: from ring difference and get_s; generic/blocks: from the LOR in sinogram coordinates) must use that chord -
+    dividing by the diameter 2R makes the obliqueness too small away from the centre of the field of view."""
+    n = 0
+    seen = set()
+    for f in fns:
+        if f.body is None or f.short != "get_tantheta" or f.qn in seen:
+            continue
+        alg = Algebra(f, names=False)
+        es = [alg.expr(r.c[0]) for r in f.walk() if r.k == "ReturnStmt" and r.c]
+        es = [e for e in es if e.free_symbols]
+        if len(es) != 1:
+            ctx.unrec(f.qn, "expected one non-constant return")
+            continue
+        seen.add(f.qn)
+        e = es[0]
+        sy = {x.name: x for x in e.free_symbols}
+        R = [x for nme, x in sy.items() if "radius" in nme]
+        cosb = [x for nme, x in sy.items() if "cos(" in nme and "beta()" in nme]
+        sv = [x for nme, x in sy.items() if "get_s(" in nme]
+        num, den = sympy.fraction(sympy.together(e))
+        ok, det = False, "transaxial distance not recognised in %s" % e
+        if len(R) == 1 and len(cosb) == 1:
+            chord = 2 * R[0] * cosb[0]
+            q = sympy.simplify(den / chord)
+            ok = q.is_number and not num.has(R[0]) and not num.has(cosb[0])
+            det = "tan(theta) = dz / (2 R cos(beta))" if ok else "tan(theta) = %s: the denominator is not the transaxial distance 2 R cos(beta) between the end points" % e
+        elif len(R) == 1 and len(sv) == 1:
+            chord = 2 * sympy.sqrt(R[0] ** 2 - sv[0] ** 2)
+            q = sympy.simplify(den / chord)
+            ok = q.is_number and not num.has(R[0]) and not num.has(sv[0])
+            det = "tan(theta) = dz / (2 sqrt(R^2 - s^2))" if ok else "tan(theta) = %s: the denominator is not the transaxial distance 2 sqrt(R^2 - s^2) between the end points" % e
+        elif len(R) == 1:
+            det = "tan(theta) = %s: divides by a multiple of the radius only - the transaxial distance between the end points of a line at distance s from the axis is 2 sqrt(R^2 - s^2) = 2 R cos(beta)" % e
+        ctx.ob("C12.e-obliqueness-over-transaxial-chord", f.qn, "denominator", ok, f.where(), det)
+        n += 1
+    return n
+
+
+def rule_d_mashed_view_centred(ctx, fns):
+    """get_phi(bin) = view * sampling + offset.  For data whose views combine M neighbouring unmashed views, the azimuthal angle of a
+    mashed view is the mean of the angles of the views it combines: the offset exceeds the intrinsic tilt by exactly
+    (pi / (N/2)) * (M - 1) / 2  - half an unmashed view step for EVEN M - with N the detectors per ring.  Closed form, with C++ integer
+    division kept apart from real division (an integer (M-1)/2 loses the half step)."""
+    import sympy
+    from engine.algebra import Algebra
+
+    n = 0
+    for f in fns:
+        if f.body is None or len(f.params) != 6:
+            continue
+        alg = Algebra(f, names=True)
+        for m in f.walk():
+            if not (m.k == "CompoundAssignOperator" and m.op == "+=" and key(m.c[0].strip()) == "this.azimuthal_angle_offset"):
+                continue
+            e = alg.expr(m.c[1])
+            # members this constructor has assigned before are replaced by what they were given
+            for w in f.walk():
+                if w.k == "BinaryOperator" and w.op == "=" and len(w.c) == 2 and w.c[0].strip().k == "MemberExpr" and key(w.c[0].strip()).startswith("this.") and w.line < m.line:
+                    ms = [x for x in e.free_symbols if x.name == key(w.c[0].strip(), True)]
+                    if ms:
+                        e = e.subs(ms[0], alg.expr(w.c[1]))
+            M = [x for x in e.free_symbols if "get_view_mashing_factor" in x.name]
+            N = [x for x in e.free_symbols if "get_num_detectors_per_ring" in x.name]
+            V = [x for x in e.free_symbols if x.name == (f.params[4].get("n") or "num_views")] if len(f.params) > 4 else []
+            if len(M) != 1 or (len(N) != 1 and len(V) != 1):
+                ctx.unrec(f.qn, "view-mashing offset: mashing factor / detectors per ring (or number of views) not found in `%s`" % e)
+                continue
+            intdiv = sympy.Function("intdiv")
+            # N is even wherever this code runs (guarded by N % (2*views) == 0), and N/2 = views * M by the definition of the mashing factor
+            v = V[0] if V else sympy.Symbol("num_views", real=True)
+            e2 = e.subs(intdiv(N[0], 2), v * M[0]) if N else e
+            q = sympy.simplify(e2 * 2 * v * M[0] / (M[0] - 1))
+            ok = bool(q.is_number) and abs(float(q) - 3.141592653589793) < 1e-6
+            ctx.ob("C12.d-mashed-view-centred", f.qn, "offset-increment", ok, m.where(), "offset increment = pi/(N/2) * (M-1)/2 with a real-valued (M-1)/2: the mashed view is centred on the M views it combines" if ok else "offset increment is `%s`, not pi/(N/2)*(M-1)/2 (real division): for even mashing factors get_phi is off by half an unmashed view step" % e)
+            n += 1
+    return n
+
+
 def run(ctx):
     ctx.explanation = (
         "Decides structural clauses only: (a) in every get_bin(LOR) implementation (arc-corrected, non-arc-corrected cylindrical, generic, "
@@ -324,8 +407,12 @@ def run(ctx):
             elif f.short == "find_bin_given_cartesian_coordinates_of_detection" and f.body is not None and f.cfg_raw and (f.file, f.line) not in seen:
                 seen.add((f.file, f.line))
                 rule_a_out_parameter(ctx, f)
-    accf = [f for u in us[len(UNITS) :] for f in u.functions]
+    accf = [f for u in us[len(UNITS) : -2] for f in u.functions]
     rule_c(ctx, accf)
+    rule_e_obliqueness_is_dz_over_chord(ctx, us[-2].functions)
+    ctx.require_count("C12.e-obliqueness-over-transaxial-chord", 2)
+    rule_d_mashed_view_centred(ctx, us[-1].functions)
+    ctx.require_count("C12.d-mashed-view-centred", 1)
     ctx.require_count("C12.a-range-test-after-last-modification", 9)
     ctx.require_count("C12.b-view-wrap-flips-all", 1)
     ctx.require_count("C12.c-coordinate-symmetries", 6)
